@@ -298,7 +298,7 @@ def build(ctx):
 # follows the tree: see notes/C15-findings.md)
 
 FIELD_PROBE = [["spawn", "2"], ["spawn", "2"], ["fieldset", "$2", "7"]]
-VALUE_PROBE = [["spawn", "2"], ["spawn", "2"], ["capture", "1", "2"], ["spawn", "2"], ["size", "v1"]]
+VALUE_PROBE = [["spawn", "2"], ["spawn", "2"], ["capture", "1", "2"], ["spawn", "2"], ["query", "v1"]]
 D16_WITNESS = [["spawn", "2"], ["spawn", "2"], ["capture", "1", "2"], ["delete", "o1"], ["delete", "o2"],
                ["size", "v1"]]
 
@@ -323,9 +323,9 @@ def probe_cfg(ctx, exe):
     last2 = out2[-1] if out2 else ""
     if crash or len(out2) != 6:
         problems.append("value probe: %s" % (crash or "short answer"))
-    elif "out=[s 2]" in last2:
+    elif "out=[q const array 2|e 1|e 2]" in last2:
         snapshot = 1
-    elif "out=[s 3]" not in last2:
+    elif "out=[q array 3|e 1|e 2|e 3]" not in last2:
         problems.append("value probe: unexpected answer " + last2)
     return {"snapshot": snapshot, "fieldfan": fieldfan}, last, problems
 
@@ -507,7 +507,7 @@ def check(ctx):
     bad += runner.run(script_corpus)
     # host level
     rng = ctx.rng("host")
-    ncases, length = (300, 120) if quick else (5000, 400)
+    ncases, length = (300, 120) if quick else (8000, 400)
     batch = []
     for i in range(ncases):
         batch.append(("host:%d" % i, gen_host(rng, rng.choice([8, 30, length]), cfg, rng.choice([1, 2, 4]))))
@@ -521,7 +521,7 @@ def check(ctx):
     host_cases = d.cases
     # script level
     rng = ctx.rng("script")
-    ncases, length = (400, 60) if quick else (6000, 250)
+    ncases, length = (400, 60) if quick else (12000, 250)
     batch = []
     for i in range(ncases):
         batch.append(("script:%d" % i, gen_script_case(rng, rng.choice([6, 20, length]), cfg, rng.choice([1, 2, 2, 4]))))
